@@ -85,7 +85,8 @@ def only_escapes_string(rng):
     return bytes(rng.choice(b'"\\\b\f\n\r\t\x01\x02\x1f\x0b') for _ in range(n))
 
 
-KEY_POOL = [b'', b'a', b'A', b'b', b'B', b'ab', b'aB', b'key', b'a/b', b'm~n', b'0', b'1', b'01', b'-', b' ', b'~', b'/', b'\xc3\xa9', b'"', b'\\', b'\n']
+KEY_POOL = [b'', b'a', b'A', b'b', b'B', b'ab', b'aB', b'key', b'a/b', b'm~n', b'0', b'1', b'01', b'-', b' ', b'~', b'/', b'\xc3\xa9', b'"', b'\\', b'\n',
+            b'k[', b'k]', b'k@', b'k^', b'k_', b'[', b'@x', b'z}']
 
 
 def gen_tree(rng, depth=0, maxdepth=4, valid_utf8=False, finite=True, distinct_keys=False, const_keys=False, fold_distinct=False):
